@@ -1,7 +1,10 @@
 //! Scenarios: per-property plan generation, sweeps and oracles.
 
+pub mod c09;
+pub mod c11;
 pub mod c16;
 pub mod c17;
+pub mod echo_gen;
 
 use crate::exec::{run_plan, Outcome, HEALTH_NONCE, LIVENESS_MS};
 use crate::http1::{build_request, hdr, BodyFraming};
@@ -123,6 +126,8 @@ pub trait Scenario: Sync {
 
 pub fn scenario(name: &str) -> Option<Box<dyn Scenario>> {
     match name {
+        "C09" => Some(Box::new(c09::C09)),
+        "C11" => Some(Box::new(c11::C11)),
         "C16" => Some(Box::new(c16::C16)),
         "C17" => Some(Box::new(c17::C17)),
         _ => None,
@@ -623,4 +628,66 @@ pub fn idle_timeout_excuses(
         .max()
         .unwrap_or(0);
     sent_after && drop_ev.t >= last_c2s + 29_000
+}
+
+/// HTTP lets a server close a keep-alive connection between requests (hyper
+/// does so after 30 s without a request head, after an error response whose
+/// request body was left unread, and in a few other cases).  A request is
+/// owed an answer only if the server saw at least one byte of it before it
+/// closed the connection.
+pub fn owed_answer(
+    out: &Outcome,
+    cp: &ConnPlan,
+    obs: &crate::client::ConnObs,
+    k: usize,
+) -> bool {
+    let Some(conn) = obs.conn_id else { return false };
+    if obs.sent_seq.get(k).copied().flatten().is_none() {
+        return false;
+    }
+    // offset of request k's first byte in the client->server stream
+    let mut off = 0u64;
+    let mut cur = 0usize;
+    for st in &cp.steps {
+        if let Step::Send { data, completes } = st {
+            let belongs = completes.unwrap_or(cur);
+            if belongs >= k {
+                break;
+            }
+            off += data.0.len() as u64;
+            if let Some(j) = completes {
+                cur = j + 1;
+            }
+        }
+    }
+    let drop_ev = out.events.iter().find(|e| {
+        (e.kind == Ev::SrvConnDropped || e.kind == Ev::SrvShutdownWr) && e.conn == conn
+    });
+    match drop_ev {
+        None => true,
+        Some(d) => {
+            let delivered: u64 = out
+                .events
+                .iter()
+                .filter(|e| e.kind == Ev::SegDelivered && e.conn == conn && e.b == 0 && e.seq < d.seq)
+                .map(|e| e.a)
+                .sum();
+            delivered > off
+        }
+    }
+}
+
+/// Request k was written before the response to request k-1 had arrived.  The
+/// server may close the connection after any response (hyper does whenever
+/// the request body was not read to its end), so such a follower is not owed
+/// an answer; whatever is answered must still be correct and in order.
+pub fn pipelined_follower(obs: &crate::client::ConnObs, k: usize) -> bool {
+    if k == 0 {
+        return false;
+    }
+    let Some(start) = obs.start_seq.get(k).copied().flatten() else { return false };
+    match &obs.by_req[k - 1] {
+        Some(r) => start < r.seq_done,
+        None => true,
+    }
 }
